@@ -46,6 +46,10 @@ type Profile struct {
 	Sizes     []int64 `json:"sizes"`
 	LockAhead int64   `json:"lock_ahead"` // extra entries committed to the lock store but not published
 	Junk      int     `json:"junk"`
+	// Forge: the published checkpoint file does not verify and claims the size
+	// the lock store is at (1: size line altered after signing, 2: signed by
+	// another key under the same name).
+	Forge int `json:"forge,omitempty"`
 	Binary    bool    `json:"binary"`
 }
 
@@ -83,6 +87,13 @@ func MakeProfile(prop string, seed uint64, tier string) *Profile {
 		p.Tag += "+junk"
 	}
 	p.Binary = r.Chance(1, 4)
+	if p.Kind == "log" && r.Chance(1, 6) {
+		p.Forge = 1 + r.Intn(2)
+		if p.LockAhead == 0 {
+			p.LockAhead = []int64{255, 256, 300}[r.Intn(3)]
+		}
+		p.Tag += "+forged"
+	}
 	return p
 }
 
@@ -286,9 +297,26 @@ func (w *gcWorld) runLog(tmp string) {
 	lj, _ := json.Marshal(map[string]any{"description": w.cfg.Name, "key": pkix})
 	os.WriteFile(filepath.Join(w.dir, "log.v3.json"), lj, 0o644)
 	w.addJunk(w.dir)
+	if p.Forge > 0 {
+		w.forgeCheckpoint()
+	}
 	before := snapshot(w.dir)
 	toolErr := w.runTool(tmp, false)
 	after := snapshot(w.dir)
+	if p.Forge > 0 {
+		// no verified checkpoint, no size: nothing may be removed
+		w.sim.Probe("forged.checkpoint")
+		for f := range before {
+			if _, ok := after[f]; !ok {
+				w.v("removed-under-unverified-checkpoint", "%s was removed although the published checkpoint does not verify under the log's key (forge kind %d)", f, p.Forge)
+				break
+			}
+		}
+		if toolErr == nil {
+			w.sim.Probe("forged.tool-ok")
+		}
+		return
+	}
 	w.judge(before, after, toolErr, w.pubSize, func(s string) (ref.TileCoord, bool) { return ref.ParsePath(s) })
 	if w.broken {
 		return
@@ -311,6 +339,30 @@ func (w *gcWorld) runLog(tmp string) {
 		return
 	}
 	w.sim.Probe("reload.ok")
+}
+
+// forgeCheckpoint replaces the published checkpoint by one that claims the
+// lock store's size and does not verify under the key in log.v3.json.
+func (w *gcWorld) forgeCheckpoint() {
+	path := filepath.Join(w.dir, "checkpoint")
+	b, err := os.ReadFile(path)
+	if err != nil {
+		return
+	}
+	exec.Command("chattr", "-i", path).Run()
+	switch w.prof.Forge {
+	case 1:
+		lines := strings.SplitN(string(b), "\n", 3)
+		if len(lines) == 3 {
+			lines[1] = fmt.Sprint(w.lockSize)
+			os.WriteFile(path, []byte(strings.Join(lines, "\n")), 0o644)
+		}
+	default:
+		cfg := &ctlog.Config{Name: w.cfg.Name, Key: corpus.Key("another gc log key"), WitnessKey: w.cfg.WitnessKey}
+		if ck, err := ctlog.VerifSignTreeHead(cfg, w.lockSize, sha256.Sum256([]byte("forged root")), time.Now().UnixMilli()); err == nil {
+			os.WriteFile(path, ck, 0o644)
+		}
+	}
 }
 
 func sha256sum(s string) []byte { h := sha256.Sum256([]byte(s)); return h[:] }
